@@ -55,6 +55,8 @@ FileCases(tier) ==
       cmdls  == single \cup {c \o <<d>> : c \in single, d \in second}
       cont   == StringsUpTo({ba, bb, bc}, 0, IF tier = "quick" THEN 3 ELSE 4)
       fsets  == {<<[name |-> "f.txt", bytes |-> t]>> : t \in cont}
+                  \* a searched file whose own name ends in .vored: NEW writes <name>.vored.vored next to it
+                  \cup {<<[name |-> "g.vored", bytes |-> t]>> : t \in StringsUpTo({ba, bb}, 1, 2)}
                   \cup {<<[name |-> "f.txt", bytes |-> t], [name |-> "g.txt", bytes |-> u]>> :
                          t \in StringsUpTo({ba, bb}, 0, 2), u \in {<<>>, <<ba, bb>>, <<ba, ba, bb>>}}
       \* files next to the searched one that a run has no business with: a stale .vored (NEW replaces it), and bystanders
